@@ -325,9 +325,14 @@ ares_status_t ares_init_by_options(ares_channel_t            *channel,
     /* Apparently some integrations were passing -1 to tell c-ares to use
      * the default instead of just omitting the optmask */
     if (options->timeout > 0) {
-      /* Convert to milliseconds */
-      optmask          |= ARES_OPT_TIMEOUTMS;
-      channel->timeout  = (unsigned int)options->timeout * 1000;
+      /* Convert to milliseconds.  Saturate at INT_MAX so the value neither
+       * wraps around nor is lost when read back via ares_save_options() */
+      optmask |= ARES_OPT_TIMEOUTMS;
+      if (options->timeout > 0x7FFFFFFF / 1000) {
+        channel->timeout = 0x7FFFFFFF;
+      } else {
+        channel->timeout = (unsigned int)options->timeout * 1000;
+      }
     }
   }
 
